@@ -91,6 +91,9 @@ def gen_c08(tier, rng):
         t = t_of_year(y) + rng.randint(0, 360 * 86400)
         for f in ("%y|%C|%G|%g", "%c", "%D|%x", "%Y|%y|%j|%a|%U|%W|%V", "%C%y %F"):
             cases.append("fmt %s %s %d %d" % (rng.choice(zs), hx(f), t, 0))
+    # glibc width-padded conversions around FormatTM's 16x cap (finding F12: at and beyond the cap nothing is rendered)
+    for f in ("%63c", "%64c", "%94c", "%31a", "%32a", "%33a", "ab%47Y", "ab%48j", "%15p", "%16p"):
+        cases.append("fmt %s %s %d 0" % (fixed_ids()[-1], hx(f), rng.choice([0, 1709251199])))
     # long runs for FormatTM's growing buffer
     for k in (1, 5, 17, 64):
         cases.append("fmt %s %s 0 0" % (fixed_ids()[-1], hx("%c" * k)))
@@ -222,6 +225,19 @@ def gen_c09(tier, rng):
                 txt = "%s%02d:%02d" % (sg, a // 3600, a // 60 % 60)
                 if a % 60:
                     txt += ":%02d" % (a % 60)
+            # a lone digit after the hours (or minutes) group is literal text, not part of the offset
+            # (finding F13: ParseOffset kept its value although it did not consume it)
+            if style != "%z" and rng.random() < 0.08:
+                dgt = str(rng.randint(1, 9))
+                if rng.random() < 0.5:
+                    off = (a // 3600) * 3600 * (-1 if off < 0 else 1)
+                    txt = "%s%02d" % (sg, a // 3600)
+                else:
+                    off = (a // 60) * 60 * (-1 if off < 0 else 1)
+                    txt = "%s%02d:%02d" % (sg, a // 3600, a // 60 % 60)
+                tailtxt = rng.choice([":" + dgt, ":" + dgt + "x", ":" + dgt + " "])
+                style = style + tailtxt
+                txt = txt + tailtxt
             fmt += " " + style
             inp += " " + txt
         # expected
